@@ -360,18 +360,25 @@ func c09Unchanged(c *Ctx) {
 	}
 	key := fk(shoot)
 	var rq, do *ssa.Call
-	EachInstr(shoot, func(in ssa.Instruction) {
-		cl, ok := in.(*ssa.Call)
-		if !ok || !cl.Call.IsInvoke() {
-			return
-		}
-		switch cl.Call.Method.Name() {
-		case "Request":
-			rq = cl
-		case "Do":
-			do = cl
-		}
-	})
+	// Shoot and the helpers of the package it hands the request to (send(req, sample, ...))
+	for _, g := range FindFuncs(shoot, 2, func(*ssa.Function) bool { return true }) {
+		EachInstr(g, func(in ssa.Instruction) {
+			cl, ok := in.(*ssa.Call)
+			if !ok || !cl.Call.IsInvoke() {
+				return
+			}
+			switch cl.Call.Method.Name() {
+			case "Request":
+				if p, n := NamedOf(cl.Call.Value.Type()); n == "Ammo" && strings.HasSuffix(p, "guns/http") {
+					rq = cl
+				}
+			case "Do":
+				if _, n := NamedOf(cl.Call.Value.Type()); n == "Client" {
+					do = cl
+				}
+			}
+		})
+	}
 	if rq == nil || do == nil {
 		c.Anchor("O9.4", "ammo.Request() / Client.Do in BaseGun.Shoot")
 		return
@@ -434,7 +441,19 @@ func c09Unchanged(c *Ctx) {
 			}
 		})
 	}
-	scan(shoot, do)
+	// from Do back to Shoot: the helper that holds Do up to Do, its caller up to the call, ...
+	{
+		var at ssa.Instruction = do
+		for d := 0; at != nil && at.Parent() != shoot && d < 3; d++ {
+			scan(at.Parent(), at)
+			at = SoleCallSite(at.Parent())
+		}
+		if at != nil && at.Parent() == shoot {
+			scan(shoot, at)
+		} else {
+			c.Unknown("O9.4", key+":path-from-Shoot-to-Do", do.Pos(), "cannot follow the calls from Shoot to the function that calls Client.Do")
+		}
+	}
 	if gb := P.Func("components/guns/http", "", "GetBody"); gb != nil {
 		scan(gb, nil)
 	}
